@@ -35,6 +35,42 @@ def search(tier='quick'):
                         break
                 if len(ds) != len(out):
                     bad('local shuffle n=%d' % n, 'len', len(ds), 'number yielded')
+            # iterators in flight over ONE local-shuffle object: every schedule of next() calls (exhaustive for short
+            # runs, round robin / bursts otherwise); each iterator must still deliver a permutation
+            if n and seed < 3:
+                for B in sorted({1, 2, 3, n + 1}):
+                    for nit in (2, 3):
+                        total = nit * n
+                        if total <= 6:
+                            scheds = set(itertools.permutations([j for j in range(nit) for _ in range(n)]))
+                        else:
+                            scheds = {tuple(j for _ in range(n) for j in range(nit)),
+                                      tuple(j for j in range(nit) for _ in range(n)),
+                                      tuple(([0] * 2 + [1] * 3 + list(range(nit))) * n)}
+                        for sched in sorted(scheds):
+                            cases += 1
+                            ds = src.shuffle(True, buffer_size=B, rng=np.random.RandomState(seed))
+                            its = [iter(ds) for _ in range(nit)]
+                            outs = [[] for _ in range(nit)]
+                            for j in sched:
+                                try:
+                                    outs[j].append(next(its[j]))
+                                except StopIteration:
+                                    pass
+                            for j in range(nit):
+                                outs[j].extend(its[j])
+                            for j in range(nit):
+                                if sorted(outs[j]) != list(range(n)):
+                                    bad('local shuffle n=%d B=%d seed=%d, %d interleaved iterators, schedule %r' % (n, B, seed, nit, sched[:12]),
+                                        'local-shuffle-multiset-under-interleaving', outs, 'every iterator a permutation')
+                                    break
+                            if fails:
+                                return cases, fails
+                z = list(zip(*[src.shuffle(True, buffer_size=2, rng=np.random.RandomState(seed))] * 1))
+                dsl = src.shuffle(True, buffer_size=2, rng=np.random.RandomState(seed))
+                za, zb = zip(*zip(dsl, dsl)) if n else ((), ())
+                if sorted(za) != list(range(n)) or sorted(zb) != list(range(n)):
+                    bad('zip(ds, ds) over one local shuffle n=%d seed=%d' % (n, seed), 'local-shuffle-self-zip', (za, zb), 'two permutations')
             cases += 1
             out = list(src.shuffle(False, rng=np.random.RandomState(seed)))
             if sorted(out) != list(range(n)):
